@@ -195,7 +195,12 @@ impl CborCalculator {
             }
         }
 
-        let max_size = tx_size_without_fee + CborCalculator::get_coin_size(&Coin::max_value());
+        let mut max_size = tx_size_without_fee + CborCalculator::get_coin_size(&Coin::max_value());
+        if let Some(dependable_amount) = dependable_amount {
+            // the coin that depends on the fee is not part of tx_size_without_fee
+            // and is never wider than the whole dependable amount
+            max_size += CborCalculator::get_coin_size(&dependable_amount);
+        }
         let pessimistic_cost = min_fee_for_size(max_size, fee_algo)?;
         Ok((pessimistic_cost, max_size))
     }
